@@ -89,7 +89,15 @@ def make_threading(kernel):
 def make_time(kernel):
     m = types.ModuleType('sim_time')
     m.time = kernel.time
-    m.sleep = kernel.sleep
+    def sleep(secs):
+        from . import kernel as K
+        if secs != secs:
+            raise ValueError('Invalid value NaN (not a number)')
+        if secs < 0:
+            raise ValueError('sleep length must be non-negative')
+        K.check_timeout(secs)
+        kernel.sleep(secs)
+    m.sleep = sleep
     m.monotonic = lambda: kernel.now
     m.perf_counter = lambda: kernel.now
     m.strftime = lambda fmt, *a: 'SIMTIME'
